@@ -52,6 +52,9 @@ OPS = {
     "underscore_prefixed_keys": "query Q { node { id ... on Bot { _rev _links _model: model } } me { _id: id _n: name } }",
     "fragment_chain_of_depth_three": "fragment Account on User { id ...Profile } fragment Profile on User { name ...Identity } fragment Identity on User { role score } query Q { me { ...Account } opt { ...Profile } }",
     "typename_on_object_positions": "query Q { me { __typename id best { __typename name } friends { __typename id } } opt { __typename } }",
+    # an inline fragment on an interface that the object type of the enclosing class implements (object position, union member, nested)
+    "inline_fragment_on_an_implemented_interface_at_object_positions":
+        "query Q { me { id ... on Named { name } ... on Node { id } best { ... on Named { name } } } actor { ... on User { ... on Named { name } role } ... on Bot { ... on Node { id } model } } }",
     "skip_with_literal_conditions": "query Q { me { id name @skip(if: true) score @include(if: false) role @include(if: true) seen @skip(if: false) } }",
 }
 KNOWN_OPS = {
